@@ -99,6 +99,15 @@ impl Report {
         }
     }
 
+    /// Same as `violation`, for a scenario that carries an oracle of another property too.
+    pub fn violation_for(&mut self, property: &str, signature: &str, detail: String, replay: Value) {
+        let before = self.violations.len();
+        self.violation(signature, detail, replay);
+        if self.violations.len() > before {
+            self.violations.last_mut().expect("pushed").property = property.to_string();
+        }
+    }
+
     pub fn has_sig(&self, signature: &str) -> bool {
         self.seen_sigs.contains_key(signature)
     }
